@@ -233,26 +233,26 @@ package simplefixgo
 // a buffer that has been handed over is never written again.
 //@ func (c *Conn) runReader() (err error)
 //@   requires c != nil && c.conn != nil && c.ctx != nil
-//@   requires[C04] @freshconn rdN == 0 && sel(cut, 0) == 0
-//@   safety[C04,C11]
-//@   handover[C04]
+//@   requires[C04,C06,C07,C09,C10,C14,C15,C16] @freshconn rdN == 0 && sel(cut, 0) == 0
+//@   safety[C04,C11,C06,C07,C09,C10,C14,C15,C16]
+//@   handover[C04,C06,C07,C09,C10,C14,C15,C16]
 //@   scenario conn_reader
 //@   modifies rdN, rdAt, cut, clock, cancelled(ctxOf(c.cancel))
 //@   forall j int
 //@   forall p int
 //@   call NewReader#1: witness r = ret
 //@   call send#1:
-//@     assert[C04,C18] @eom hasPrefix(from(wireIn(r), rdPos(r) - len(buff)), "10=") && (rdPos(r) - len(buff) == 0 || code(wireIn(r), rdPos(r) - len(buff) - 1) == 1)
-//@     assert[C04] @whole string(arg1) == sub(wireIn(r), sel(cut, rdN - 1), rdPos(r))
+//@     assert[C04,C18,C06,C07,C09,C10,C14,C15,C16] @eom hasPrefix(from(wireIn(r), rdPos(r) - len(buff)), "10=") && (rdPos(r) - len(buff) == 0 || code(wireIn(r), rdPos(r) - len(buff) - 1) == 1)
+//@     assert[C04,C06,C07,C09,C10,C14,C15,C16] @whole string(arg1) == sub(wireIn(r), sel(cut, rdN - 1), rdPos(r))
 //@     set cut = upd(cut, rdN, rdPos(r))
 //@   loop 1:
 //@     modifies rdPos(r)
-//@     invariant[C04] @pos 0 <= sel(cut, rdN) && sel(cut, rdN) <= rdPos(r) && rdPos(r) <= len(wireIn(r)) && rdN >= 0
-//@     invariant[C04] @buffer string(msg) == sub(wireIn(r), sel(cut, rdN), rdPos(r))
-//@     invariant[C04] @boundary rdPos(r) == 0 || code(wireIn(r), rdPos(r) - 1) == 1
-//@     invariant[C04] @delivered imp(0 <= j && j < rdN, sel(rdAt, j) == sub(wireIn(r), sel(cut, j), sel(cut, j + 1)))
-//@     invariant[C04] @consecutive imp(0 <= j && j < rdN, sel(cut, j) <= sel(cut, j + 1))
-//@     invariant[C04,C18] @nopending imp(sel(cut, rdN) <= p && p < rdPos(r) && (p == 0 || code(wireIn(r), p - 1) == 1), !hasPrefix(from(wireIn(r), p), "10="))
+//@     invariant[C04,C06,C07,C09,C10,C14,C15,C16] @pos 0 <= sel(cut, rdN) && sel(cut, rdN) <= rdPos(r) && rdPos(r) <= len(wireIn(r)) && rdN >= 0
+//@     invariant[C04,C06,C07,C09,C10,C14,C15,C16] @buffer string(msg) == sub(wireIn(r), sel(cut, rdN), rdPos(r))
+//@     invariant[C04,C06,C07,C09,C10,C14,C15,C16] @boundary rdPos(r) == 0 || code(wireIn(r), rdPos(r) - 1) == 1
+//@     invariant[C04,C06,C07,C09,C10,C14,C15,C16] @delivered imp(0 <= j && j < rdN, sel(rdAt, j) == sub(wireIn(r), sel(cut, j), sel(cut, j + 1)))
+//@     invariant[C04,C06,C07,C09,C10,C14,C15,C16] @consecutive imp(0 <= j && j < rdN, sel(cut, j) <= sel(cut, j + 1))
+//@     invariant[C04,C18,C06,C07,C09,C10,C14,C15,C16] @nopending imp(sel(cut, rdN) <= p && p < rdPos(r) && (p == 0 || code(wireIn(r), p - 1) == 1), !hasPrefix(from(wireIn(r), p), "10="))
 
 // wireOut(x): every byte the library has written on connection x so far, in order.
 // The contract of net.Conn.Write is an assumption about the transport (trusted base):
@@ -303,7 +303,7 @@ package simplefixgo
 //@ interface InitiatorHandler
 //@   implementations *DefaultHandler
 //@   method Stop():
-//@     pure
+//@     modifies cancelled(*)
 //@   method ServeIncoming(msg []byte):
 //@     modifies inN, inAt
 //@     ensures[C04] @enqueued inN == old(inN) + 1 && inAt == upd(old(inAt), old(inN), string(msg))
@@ -338,11 +338,11 @@ package simplefixgo
 //@   modifies rdR, inN, inAt, clock, cancelled(*)
 //@   forall j int
 //@   call ServeIncoming#1:
-//@     assert[C04] @same string(arg0) == sel(rdAt, rdR - 1)
+//@     assert[C04,C06,C07,C09,C10,C14,C15,C16] @same string(arg0) == sel(rdAt, rdR - 1)
 //@   loop 1:
-//@     invariant[C04] @count inN - old(inN) == rdR - old(rdR) && rdR >= old(rdR)
-//@     invariant[C04] @inorder imp(0 <= j && j < rdR - old(rdR), sel(inAt, old(inN) + j) == sel(rdAt, old(rdR) + j))
-//@     invariant[C04] @earlier imp(j < old(inN), sel(inAt, j) == old(sel(inAt, j)))
+//@     invariant[C04,C06,C07,C09,C10,C14,C15,C16] @count inN - old(inN) == rdR - old(rdR) && rdR >= old(rdR)
+//@     invariant[C04,C06,C07,C09,C10,C14,C15,C16] @inorder imp(0 <= j && j < rdR - old(rdR), sel(inAt, old(inN) + j) == sel(rdAt, old(rdR) + j))
+//@     invariant[C04,C06,C07,C09,C10,C14,C15,C16] @earlier imp(j < old(inN), sel(inAt, j) == old(sel(inAt, j)))
 
 // Closing and stopping cancel contexts and close the socket; they touch none of the
 // message queues or streams.
@@ -381,11 +381,11 @@ package simplefixgo
 //@   modifies rdR, inN, inAt, clock, cancelled(*)
 //@   forall j int
 //@   call ServeIncoming#1:
-//@     assert[C04] @same string(arg0) == sel(rdAt, rdR - 1)
+//@     assert[C04,C06,C07,C09,C10,C14,C15,C16] @same string(arg0) == sel(rdAt, rdR - 1)
 //@   loop 1:
-//@     invariant[C04] @count inN - old(inN) == rdR - old(rdR) && rdR >= old(rdR)
-//@     invariant[C04] @inorder imp(0 <= j && j < rdR - old(rdR), sel(inAt, old(inN) + j) == sel(rdAt, old(rdR) + j))
-//@     invariant[C04] @earlier imp(j < old(inN), sel(inAt, j) == old(sel(inAt, j)))
+//@     invariant[C04,C06,C07,C09,C10,C14,C15,C16] @count inN - old(inN) == rdR - old(rdR) && rdR >= old(rdR)
+//@     invariant[C04,C06,C07,C09,C10,C14,C15,C16] @inorder imp(0 <= j && j < rdR - old(rdR), sel(inAt, old(inN) + j) == sel(rdAt, old(rdR) + j))
+//@     invariant[C04,C06,C07,C09,C10,C14,C15,C16] @earlier imp(j < old(inN), sel(inAt, j) == old(sel(inAt, j)))
 
 // The handler loop takes the queued messages one at a time, in queue order, and
 // dispatches each of them before it takes the next one (also while draining the
@@ -396,33 +396,33 @@ package simplefixgo
 //@   modifies callN, callAt, callRet, srvN, srvAt, inR, trigN, trigAt, routerStopped, timersStarted
 //@   forall j int
 //@   call serve#1:
-//@     assert[C04] @same string(arg1) == sel(inAt, inR - 1)
+//@     assert[C04,C06,C07,C09,C10,C14,C15,C16] @same string(arg1) == sel(inAt, inR - 1)
 //@   call processRemainingIncoming#1:
 //@     inst j = j - (inR - old(inR))
 //@     inst j = old(srvN) + j
 //@   call processRemainingIncoming#2:
 //@     inst j = j - (inR - old(inR))
 //@     inst j = old(srvN) + j
-//@   ensures[C04] @count srvN - old(srvN) == inR - old(inR)
-//@   ensures[C04] @inorder imp(0 <= j && j < inR - old(inR), sel(srvAt, old(srvN) + j) == sel(inAt, old(inR) + j))
+//@   ensures[C04,C06,C07,C09,C10,C14,C15,C16] @count srvN - old(srvN) == inR - old(inR)
+//@   ensures[C04,C06,C07,C09,C10,C14,C15,C16] @inorder imp(0 <= j && j < inR - old(inR), sel(srvAt, old(srvN) + j) == sel(inAt, old(inR) + j))
 //@   loop 1:
-//@     invariant[C04] @count srvN - old(srvN) == inR - old(inR) && inR >= old(inR)
-//@     invariant[C04] @inorder imp(0 <= j && j < inR - old(inR), sel(srvAt, old(srvN) + j) == sel(inAt, old(inR) + j))
-//@     invariant[C04] @earlier imp(j < old(srvN), sel(srvAt, j) == old(sel(srvAt, j)))
+//@     invariant[C04,C06,C07,C09,C10,C14,C15,C16] @count srvN - old(srvN) == inR - old(inR) && inR >= old(inR)
+//@     invariant[C04,C06,C07,C09,C10,C14,C15,C16] @inorder imp(0 <= j && j < inR - old(inR), sel(srvAt, old(srvN) + j) == sel(inAt, old(inR) + j))
+//@     invariant[C04,C06,C07,C09,C10,C14,C15,C16] @earlier imp(j < old(srvN), sel(srvAt, j) == old(sel(srvAt, j)))
 
 //@ func (h *DefaultHandler) processRemainingIncoming()
 //@   requires h != nil && h.incomingHandlers.HandlerPool != nil
 //@   modifies callN, callAt, callRet, srvN, srvAt, inR
 //@   forall j int
 //@   call serve#1:
-//@     assert[C04] @same string(arg1) == sel(inAt, inR - 1)
-//@   ensures[C04] @count srvN - old(srvN) == inR - old(inR) && inR >= old(inR)
-//@   ensures[C04] @inorder imp(0 <= j && j < inR - old(inR), sel(srvAt, old(srvN) + j) == sel(inAt, old(inR) + j))
-//@   ensures[C04] @earlier imp(j < old(srvN), sel(srvAt, j) == old(sel(srvAt, j)))
+//@     assert[C04,C06,C07,C09,C10,C14,C15,C16] @same string(arg1) == sel(inAt, inR - 1)
+//@   ensures[C04,C06,C07,C09,C10,C14,C15,C16] @count srvN - old(srvN) == inR - old(inR) && inR >= old(inR)
+//@   ensures[C04,C06,C07,C09,C10,C14,C15,C16] @inorder imp(0 <= j && j < inR - old(inR), sel(srvAt, old(srvN) + j) == sel(inAt, old(inR) + j))
+//@   ensures[C04,C06,C07,C09,C10,C14,C15,C16] @earlier imp(j < old(srvN), sel(srvAt, j) == old(sel(srvAt, j)))
 //@   loop 1:
-//@     invariant[C04] @count srvN - old(srvN) == inR - old(inR) && inR >= old(inR)
-//@     invariant[C04] @inorder imp(0 <= j && j < inR - old(inR), sel(srvAt, old(srvN) + j) == sel(inAt, old(inR) + j))
-//@     invariant[C04] @earlier imp(j < old(srvN), sel(srvAt, j) == old(sel(srvAt, j)))
+//@     invariant[C04,C06,C07,C09,C10,C14,C15,C16] @count srvN - old(srvN) == inR - old(inR) && inR >= old(inR)
+//@     invariant[C04,C06,C07,C09,C10,C14,C15,C16] @inorder imp(0 <= j && j < inR - old(inR), sel(srvAt, old(srvN) + j) == sel(inAt, old(inR) + j))
+//@     invariant[C04,C06,C07,C09,C10,C14,C15,C16] @earlier imp(j < old(srvN), sel(srvAt, j) == old(sel(srvAt, j)))
 
 //@ func (h *DefaultHandler) processRemainingErrors()
 //@   pure
